@@ -63,6 +63,19 @@ def run(ctx):
         src = prog.qml_program(p)
         items.append((p, tuple(sig), src))
         ctx.dist("handler-%s-%d-params" % ("function" if p[0] == "callback_func" else "block", len(p[1]) if p[0] == "callback_func" else 0))
+    # the same handlers with comments between the clauses of their switch statements (refused today; if ever accepted, a comment means nothing)
+    def commented(src):
+        out = []
+        for ln in src.split("\n"):
+            t = ln.strip()
+            if t.startswith("default:") or (t.startswith("case ") and rng.random() < 0.5):
+                out.append(ln[:len(ln) - len(ln.lstrip())] + rng.choice(["// note", "/* note */"]))
+            out.append(ln)
+        return "\n".join(out)
+    twins = [(p, sig, commented(src)) for p, sig, src in items if "default:" in src]
+    for tw in twins[:(200 if ctx.tier == "thorough" else 40)]:
+        items.append(tw)
+        ctx.dist("handler-commented-switch")
     singles = exe.accepted_singles(vh, [("handler", SIGNALS[sig][0], src) for p, sig, src in items])
     acc = []
     for (p, sig, src), r in zip(items, singles):
